@@ -81,16 +81,22 @@ type SeataV1PackageHeader struct {
 }
 
 func (p *RpcPackageHandler) Read(ss getty.Session, data []byte) (interface{}, int, error) {
+	// check as much of the magic code as has arrived; everything else has to
+	// wait until the fixed part of the header is complete
+	for i := 0; i < len(magics) && i < len(data); i++ {
+		if data[i] != magics[i] {
+			return nil, 0, fmt.Errorf("codec decode not found magic offset")
+		}
+	}
+	if len(data) < Seatav1HeaderLength {
+		return nil, 0, nil
+	}
+
 	in := bytes.NewByteBuffer(data)
 
 	header := SeataV1PackageHeader{}
-	magic0 := bytes.ReadByte(in)
-	magic1 := bytes.ReadByte(in)
-	if magic0 != magics[0] || magic1 != magics[1] {
-		return nil, 0, fmt.Errorf("codec decode not found magic offset")
-	}
-	header.Magic0 = magic0
-	header.Magic1 = magic1
+	header.Magic0 = bytes.ReadByte(in)
+	header.Magic1 = bytes.ReadByte(in)
 	header.Version = bytes.ReadByte(in)
 	// length of head and body
 	header.TotalLength = bytes.ReadUInt32(in)
@@ -99,13 +105,17 @@ func (p *RpcPackageHandler) Read(ss getty.Session, data []byte) (interface{}, in
 	header.CodecType = bytes.ReadByte(in)
 	header.CompressType = bytes.ReadByte(in)
 	header.RequestID = bytes.ReadUInt32(in)
-	headMapLength := header.HeadLength - Seatav1HeaderLength
-	header.Meta = decodeHeapMap(in, headMapLength)
-	header.BodyLength = header.TotalLength - uint32(header.HeadLength)
+	if header.HeadLength < Seatav1HeaderLength || uint32(header.HeadLength) > header.TotalLength {
+		return nil, 0, ErrInvalidPackage
+	}
 
 	if uint32(len(data)) < header.TotalLength {
 		return nil, int(header.TotalLength), nil
 	}
+
+	headMapLength := header.HeadLength - Seatav1HeaderLength
+	header.Meta = decodeHeapMap(in, headMapLength)
+	header.BodyLength = header.TotalLength - uint32(header.HeadLength)
 
 	// r := byteio.BigEndianReader{Reader: bytes.NewReader(data)}
 	rpcMessage := message.RpcMessage{
@@ -122,7 +132,7 @@ func (p *RpcPackageHandler) Read(ss getty.Session, data []byte) (interface{}, in
 		rpcMessage.Body = message.HeartBeatMessagePong
 	} else {
 		if header.BodyLength > 0 {
-			msg := codec.GetCodecManager().Decode(codec.CodecType(header.CodecType), data[header.HeadLength:])
+			msg := codec.GetCodecManager().Decode(codec.CodecType(header.CodecType), data[header.HeadLength:header.TotalLength])
 			rpcMessage.Body = msg
 		}
 	}
@@ -198,8 +208,8 @@ func decodeHeapMap(in *bytes.ByteBuffer, length uint16) map[string]string {
 		return res
 	}
 
-	readedLength := uint16(0)
-	for readedLength < length {
+	readedLength := 0
+	for readedLength < int(length) {
 		var key, value string
 		keyLength := bytes.ReadUInt16(in)
 		if keyLength == 0 {
@@ -212,7 +222,7 @@ func decodeHeapMap(in *bytes.ByteBuffer, length uint16) map[string]string {
 
 		valueLength := bytes.ReadUInt16(in)
 		if valueLength == 0 {
-			key = ""
+			value = ""
 		} else {
 			valueBytes := make([]byte, valueLength)
 			in.Read(valueBytes)
@@ -220,8 +230,7 @@ func decodeHeapMap(in *bytes.ByteBuffer, length uint16) map[string]string {
 		}
 
 		res[key] = value
-		readedLength += 4 + keyLength + valueLength
-		fmt.Sprintln("done")
+		readedLength += 4 + int(keyLength) + int(valueLength)
 	}
 	return res
 }
